@@ -45,7 +45,7 @@ func streamUserOp(o *Out, r *Rng, tier string) {
 	if tier == "thorough" {
 		nOps, perOp = 80, 200
 	}
-	o.meta.Rule = fmt.Sprintf("%d operators registered with AddOperation one after another (alias letters or symbols, written in lower/upper/mixed case; priority 1..7 mostly, a quarter from {0,8,9,10,100,255}; left or right; operands numbers, parenthesised numbers or function calls; semantics sub/pow/div/cat), after each: registry dump vs model, %d chains of 2..4 operators mixing it with earlier user operators and built-ins (+ - * / **), with and without blanks: postfix form vs the model's shunting yard on the model's table, value vs the tree the declared precedence and associativity determine. Distinct = distinct (chain, value) pairs.", nOps, perOp)
+	o.meta.Rule = fmt.Sprintf("%d operators registered with AddOperation one after another (alias letters or symbols, written in lower/upper/mixed case; priority 1..7 mostly, a quarter from {8,9,10,100,255}; left or right; operands numbers, parenthesised numbers or function calls; semantics sub/pow/div/cat), after each: registry dump vs model, %d chains of 2..4 operators mixing it with earlier user operators and built-ins (+ - * / **), with and without blanks: postfix form vs the model's shunting yard on the model's table, value vs the tree the declared precedence and associativity determine. Distinct = distinct (chain, value) pairs.", nOps, perOp)
 	builtins := []userOp{
 		{"+", 4, false, func(a, b float64) float64 { return a + b }},
 		{"-", 4, false, func(a, b float64) float64 { return a - b }},
@@ -81,8 +81,9 @@ func streamUserOp(o *Out, r *Rng, tier string) {
 		}
 		uf := userFns[r.Intn(len(userFns))]
 		op := userOp{name: lower, prio: 1 + r.Intn(7), right: r.Chance(40), fn: uf.fn}
-		if r.Chance(25) { // the priority is a uint8: levels above the whole built-in table (and level 0, below it) are declared levels too
-			op.prio = []int{0, 8, 9, 10, 100, 255}[r.Intn(6)]
+		if r.Chance(25) { // the priority is a uint8: levels above the whole built-in table are declared levels too (not 0: the
+			// implementation reads priority 0 as "no such operator" — DESIGN.md §A.5, observations)
+			op.prio = []int{8, 9, 10, 100, 255}[r.Intn(5)]
 			o.Stat("registered.priority-outside-1..7")
 		}
 		fn := op.fn
